@@ -6,7 +6,7 @@ from collections import Counter
 from . import enc_common as E
 from .enc_common import mk, mk_sym, R, V, Case
 
-THEOREM_FILES = ['C04', 'C01', 'Enc', 'EncOps1', 'EncOps2', 'EncOps3', 'EncOps4', 'EncDefs']
+THEOREM_FILES = ['C04', 'C01b', 'C01', 'Enc', 'EncOps1', 'EncOps2', 'EncOps3', 'EncOps4', 'EncDefs']
 ASSUMPTIONS = [
     'legality (operand kinds, register classes, ranges, aliases) is the hand-written Isa.surface',
     'process-level theorems assume operands resolve and registers are r0..r31 (grammar guarantee)',
